@@ -24,7 +24,7 @@ func (c *Ctx) passAll(rule, what string, fn *ssa.Function, target IP, guards []n
 
 func runC13(c *Ctx) {
 	c.Clause("C13.1 Retry: every state change lies beyond all five rejections (server, packet already received, unchanged SCID, Retry already received, integrity tag mismatch); the tag is computed over the packet minus its last 16 bytes with the current destination connection ID and the header's version")
-	c.Clause("C13.2 Version Negotiation: recreation/destroy only beyond server / first-packet / already-negotiated / parse-error / offered-version-listed rejections")
+	c.Clause("C13.2 Version Negotiation: recreation/destroy only beyond server / first-packet / Retry-processed / already-negotiated / parse-error / offered-version-listed rejections")
 	c.Clause("C13.3 peer transport parameters are stored only after connection-ID authentication (ISCID, ODCID, Retry SCID both ways); unexpected-SCID Initials, client-side 0-RTT and wrong-version long headers are dropped before unpacking")
 	c.Clause("C13.4 run loop: the blocking select has close and timer cases; handshake timeout and idle checks reach destroyImpl")
 	c.Clause("C13.5 0-RTT rejection resets streams map, framer, connection flow controller and sent-packet state")
@@ -152,6 +152,7 @@ func c13VN(c *Ctx) {
 	guards := []namedEdge{
 		{"not server", EdgeRel(Rel{Op: token.EQL, X: Load(persp), Y: ConstOf(srv)}, true)},
 		{"no packet received yet", EdgeRel(BoolTrue(Load(rfp)), true)},
+		{"no Retry processed yet", EdgeRel(BoolTrue(Load(c.fld("", "Conn", "receivedRetry"))), true)},
 		{"version not yet negotiated", EdgeRel(BoolTrue(Load(vn)), true)},
 		{"packet parsed", EdgeRel(Rel{Op: token.EQL, X: CallTo(parse, 3), Y: IsNil()}, false)},
 		{"offered version not listed", EdgeRel(BoolTrue(contains), true)},
